@@ -129,7 +129,7 @@ Proof.
   destruct (list4 _ (Hwf cfg)) as (c0 & c1 & c2 & c3 & Hm0).
   destruct (list4 _ (Hwf (cfg + 1))) as (d0 & d1 & d2 & d3 & Hm1).
   destruct (list4 _ (Hwf (cfg + 3))) as (e0 & e1 & e2 & e3 & Hm3).
-  rewrite Hm0, Hm1, Hm3. cbn [app skipn].
+  rewrite Hm0, Hm1, Hm3. cbn [app skipn]. unfold ntag_cfg_edit. cbv zeta.
   change (take 8 [c0; c1; c2; c3; d0; d1; d2; d3; 0; 0; 0; 0; 0; 0; e2; e3]) with [c0; c1; c2; c3; d0; d1; d2; d3].
   change (drop 14 [c0; c1; c2; c3; d0; d1; d2; d3; 0; 0; 0; 0; 0; 0; e2; e3]) with [e2; e3].
   cbn [app].
@@ -186,7 +186,7 @@ Proof.
     rewrite Hrp. destruct (list4 _ (Hwf4 3)) as (f0 & f1 & f2 & f3 & Hm3').
     rewrite Hm3'. cbn [app].
     repeat match goal with |- context [slice ?l 0 4] => change (slice l 0 4) with [f0; f1; f2; f3] end.
-    cbn [nth].
+    unfold ntag_cc_test, ntag_cc_edit. cbn [nth].
     destruct ((f0 =? 225) && (Z.land f1 240 =? 16)).
     + unfold nbind at 1.
       match goal with |- context [set_byte [f0; f1; f2; f3] 3 ?v] => change (set_byte [f0; f1; f2; f3] 3 v) with [f0; f1; f2; v] end.
